@@ -134,7 +134,13 @@ class FalsyBase(BaseException):
         return False
 
 
+def _listargs(msg):
+    """an exception whose args hold unhashable values (a list of offending rows, a dict of context)"""
+    return rec.InjectedError(msg, [3, 17], {"column": "x"})
+
+
 EXC_KINDS = {
+    "listargs": _listargs,
     "falsy": FalsyError,
     "falsybase": FalsyBase,
     "exc": rec.InjectedError,
